@@ -1,5 +1,7 @@
 package lib
 
+import "fmt"
+
 // Schema cluster: small constructors and the fixed corpus (boundary schemas, witnesses of findings).
 
 func SchScalar(k byte) *SchTy { return &SchTy{K: k} }
@@ -285,4 +287,46 @@ func schFits(t *SchTy, v *Val) bool {
 		return v.Kind == KMap
 	}
 	return true
+}
+
+// SchShapeZoo: schemas that between them put every value type kind the generator supports into every
+// kind of slot under every flag combination: {map value, list element} x {plain, nullable} and
+// {map-struct field, tuple-struct field} x {plain, nullable, optional, optional nullable}.  The code
+// generator chooses its templates' branches by slot flags and by whether the Maybe of the value type
+// holds a pointer (structs, unions) or embeds the value (scalars, lists, maps); with the zoo in every
+// run each branch is instantiated and compiled, whatever the random schemas of that run look like.
+func SchShapeZoo() []*SchTy {
+	sc := func(k byte) func() *SchTy { return func() *SchTy { return SchScalar(k) } }
+	kinds := []func() *SchTy{
+		sc('I'), sc('S'), // every scalar embeds its Maybe and is treated alike by the container templates
+		func() *SchTy { return SchList(false, SchScalar('I')) },
+		func() *SchTy { return SchMapOf(false, SchScalar('I')) },
+		func() *SchTy { return SchStruct('m', SchF("x", SchScalar('I')), SchFOpt("y", SchScalar('S'))) },
+		func() *SchTy { return SchStruct('t', SchF("x", SchScalar('I')), SchF("y", SchScalar('S'))) },
+		func() *SchTy { return SchJoin(":", SchF("a", SchScalar('S')), SchF("b", SchScalar('S'))) },
+		func() *SchTy { return SchUnion('k', SchM("i", 'm', SchScalar('I')), SchM("s", 'm', SchScalar('S'))) },
+		func() *SchTy { return SchUnion('d', SchM("", 'i', SchScalar('I')), SchM("", 's', SchScalar('S'))) },
+		func() *SchTy { return SchUnion('p', SchM("a", 's', SchScalar('S')), SchM("b", 's', SchScalar('S'))) },
+	}
+	var out []*SchTy
+	for _, nul := range []bool{false, true} {
+		for _, c := range []byte{'M', 'L'} {
+			var fs []SchField
+			for i, k := range kinds {
+				fs = append(fs, SchF(fmt.Sprintf("f%d", i), &SchTy{K: c, Nul: nul, Elem: k()}))
+			}
+			out = append(out, SchStruct('m', fs...))
+		}
+	}
+	for _, repr := range []byte{'m', 't'} {
+		for flags := 0; flags < 4; flags++ {
+			var fs []SchField
+			for i, k := range kinds {
+				n := fmt.Sprintf("f%d", i)
+				fs = append(fs, SchField{Name: n, Key: n, Opt: flags&1 != 0, Nul: flags&2 != 0, T: k()})
+			}
+			out = append(out, SchStruct(repr, fs...))
+		}
+	}
+	return out
 }
